@@ -14,22 +14,23 @@ demo = os.path.join(mutdir, "demo%s.py" % n)
 def sh(cmd, cwd=None, env=None, timeout=3600):
     p = subprocess.run(cmd, shell=True, cwd=cwd, env=env, stdout=subprocess.PIPE, stderr=subprocess.STDOUT, timeout=timeout)
     return p.returncode, p.stdout.decode(errors="replace")
-env = dict(os.environ, PYTHONPATH="/repo", PYTHONWARNINGS="ignore", PYTHONDONTWRITEBYTECODE="1")
-assert sh("git -C /repo status --short --untracked-files=no")[1].strip() == "", "repo not clean"
-rc0, out0 = sh("/venv/bin/python %s" % demo, cwd="/repo", env=env)
+REPO = os.environ.get("SEED_REPO", "/repo")     # a scratch worktree may stand in for /repo (parallel runs)
+env = dict(os.environ, PYTHONPATH=REPO, PYSPIKE_REPO=REPO, PYTHONWARNINGS="ignore", PYTHONDONTWRITEBYTECODE="1")
+assert sh("git -C %s status --short --untracked-files=no" % REPO)[1].strip() == "", "repo not clean"
+rc0, out0 = sh("/venv/bin/python %s" % demo, cwd=REPO, env=env)
 res = {"property": pid, "patch": os.path.basename(patch), "demo_without_change_exit": rc0}
-rc, out = sh("git -C /repo apply %s" % patch)
+rc, out = sh("git -C %s apply %s" % (REPO, patch))
 assert rc == 0, out
 try:
-    rc, out = sh("/venv/bin/python -m pytest -q -p no:cacheprovider --timeout=900 test 2>&1 | tail -3", cwd="/repo", env=env)
+    rc, out = sh("/venv/bin/python -m pytest -q -p no:cacheprovider --timeout=900 test 2>&1 | tail -3", cwd=REPO, env=env)
     res["testsuite_with_change"] = out.strip().split("\n")[-1]
-    rc1, out1 = sh("/venv/bin/python %s" % demo, cwd="/repo", env=env)
+    rc1, out1 = sh("/venv/bin/python %s" % demo, cwd=REPO, env=env)
     res["demo_with_change_exit"] = rc1
     res["demo_with_change_tail"] = out1[-600:]
     res["checks"] = {}
     for p in [pid] + also:
         t0 = time.time()
-        rcc, outc = sh("./check %s --tier quick" % p, cwd=V)
+        rcc, outc = sh("./check %s --tier quick" % p, cwd=V, env=env)
         lines = [l for l in outc.split("\n") if l.startswith("VIOLATION") or l.startswith("KNOWN-FINDING")]
         res["checks"][p] = {"exit": rcc, "lines": lines[:6], "wall_s": round(time.time() - t0, 1)}
         # keep the first replay of the target property
@@ -37,9 +38,9 @@ try:
         if m and p == pid and os.path.exists(m.group(1)):
             res["replay_sample"] = json.load(open(m.group(1)))
 finally:
-    sh("git -C /repo checkout -- .")
-    assert sh("git -C /repo status --short --untracked-files=no")[1].strip() == "", "repo not clean after revert"
-tag = str(int(n) + 2) if "mut2" in mutdir else str(n)
+    sh("git -C %s checkout -- ." % REPO)
+    assert sh("git -C %s status --short --untracked-files=no" % REPO)[1].strip() == "", "repo not clean after revert"
+tag = str(int(n) + 4) if "mut3" in mutdir else (str(int(n) + 2) if "mut2" in mutdir else str(n))
 dst = os.path.join(V, "seeded", "%s-%s" % (pid, tag))
 os.makedirs(dst, exist_ok=True)
 shutil.copy(patch, os.path.join(dst, "patch.diff"))
@@ -51,8 +52,8 @@ if os.path.exists(notes):
     shutil.copy(notes, os.path.join(dst, "notes.md"))
 res["confirmed"] = (rc0 == 0 and res.get("demo_with_change_exit", 0) != 0 and "49 passed" in res.get("testsuite_with_change", ""))
 res["caught_by"] = [p for p, c in res["checks"].items() if c["exit"] != 0]
-res["ran"] = ["git -C /repo apply patch.diff", "pytest (repository suite)", "demo with and without the change",
-              "./check <id> --tier quick for " + ", ".join([pid] + also), "git -C /repo checkout -- ."]
+res["ran"] = ["git -C %s apply patch.diff (a scratch worktree of /repo at HEAD)" % REPO if REPO != "/repo" else "git -C /repo apply patch.diff", "pytest (repository suite)", "demo with and without the change",
+              "./check <id> --tier quick for " + ", ".join([pid] + also), "git -C %s checkout -- ." % REPO]
 json.dump(res, open(os.path.join(dst, "meta.json"), "w"), indent=1)
 print(json.dumps({k: res[k] for k in ("confirmed", "caught_by", "testsuite_with_change", "demo_with_change_exit", "demo_without_change_exit")}))
 for p, c in res["checks"].items():
